@@ -586,6 +586,12 @@ def run_matrix_maps(pe, acc, case):
             MQ = pe.Corr(Q)
             call_checked(pe, acc, 'matrix_symmetric:equal-means', sub0, 'matrix_symmetric() of a matrix whose transposed entries have equal means, pattern %s' % (pa,), lambda x: x.matrix_symmetric(), [MQ],
                          lambda: [None if Q[t] is None else 0.5 * (Q[t] + Q[t].T) for t in range(T)], T, N, key=('msq', T, pa))
+        # the same matrix at another magnitude (1e-13, 1e9): symmetrisation does not depend on the units
+        for msc in (1e-13, 1e9):
+            cs = [None if c[t] is None else c[t] * msc for t in range(T)]
+            Ms = pe.Corr(cs)
+            call_checked(pe, acc, 'matrix_symmetric:scaled', dict(sub0, scale=msc), 'matrix_symmetric() of a matrix of magnitude %g, pattern %s' % (msc, pa), lambda x: x.matrix_symmetric(), [Ms],
+                         lambda cs=cs: [None if cs[t] is None else 0.5 * (cs[t] + cs[t].T) for t in range(T)], T, N, key=('mss', T, pa, msc))
         vl, vr = np.array([1.0, 2.0]), np.array([-0.5, 1.5])
         for normalize in (False, True):
             nl = vl / np.sqrt(vl @ vl) if normalize else vl
